@@ -240,6 +240,13 @@ def replay(path):
     with open(path) as f:
         rec = json.load(f)
     case = rec["case"].get("case", rec["case"])
+    if "ast" in case:          # a random tree the module itself could not read back
+        res, _ = tlc.oracle("OracleRrelSyntax", [dict(id="a", mode="ast", ast=case["ast"])])
+        print("module prints the tree as", repr(drv.text_of(res["a"]["text"])), "exact:", res["a"]["exact"],
+              "round trip:", res["a"]["thm"])
+        if not (res["a"]["exact"] and res["a"]["thm"]):
+            return 1
+        case = dict(text=res["a"]["text"])
     text = drv.text_of(case["text"])
     o = drv.run_case(text, text)
     res, _ = tlc.oracle("OracleRrelSyntax", [dict(id="t", mode="text", text=case["text"]),
